@@ -4,6 +4,7 @@ CONSTANTS
   ConnStates = {"up"}
   MaxReplies = 3
   LeakOnSendError = FALSE
+  MatchCreation = TRUE
   RemoveOnTimeout = TRUE
 CHECK_DEADLOCK FALSE
 INVARIANT OwnReplyOnly
